@@ -29,4 +29,16 @@ theorem window_wait_not_skipped :
 /-- there is exactly one place where packets enter the queue -/
 theorem single_entry : (skel_sendPacketsForever.filter (· == "call:g.sendQueue.addPacket")).length = 1 := by decide
 
+/-- **every response that makes room wakes the window wait** (repair 611abab):
+    in the receive loop the signal that releases a sender waiting on a full
+    window is raised after `processACK` and after `processNACK` — in the NACK
+    arm before the `!shouldResend` shortcut, so also for a NACK that empties the
+    queue without asking for a resend -/
+theorem room_wakes_sender :
+    (let s := fromTok skel_receivePacketsForever "call:g.sendQueue.processACK"
+     (upTo s "call:g.sendQueue.processNACK").contains "send:g.receivedACKSignal" = true) ∧
+    (let s := fromTok skel_receivePacketsForever "call:g.sendQueue.processNACK"
+     (upTo s "cond:!shouldResend").contains "send:g.receivedACKSignal" = true ∧
+     s.contains "cond:!shouldResend" = true) := by decide
+
 end Lnc.Inst.C09
